@@ -410,8 +410,12 @@ KwOK(c, kw) == DOMAIN kw \subseteq KwNames(c) /\ \A n \in DOMAIN kw : kw[n] \in 
 MaxPosAll == CHOOSE m \in 0..20 : (\E c \in ClassSet : MaxPos(c) = m) /\ \A c \in ClassSet : MaxPos(c) <= m
 AllNames == UNION {Rng(AttrNames(c)) : c \in ClassSet}
 \* (constant-level functions: TLC evaluates them once)
-PosSets == [c \in ClassSet |-> UNION {{p \in [1..k -> AllVals] : PosOK(c, p)} : k \in 0..MaxPos(c)}]
-KwSets == [c \in ClassSet |-> UNION {{f \in [S -> AllVals] : KwOK(c, f)} : S \in SUBSET KwNames(c)}]
+\* (only where creation calls are enumerated: TLC evaluates constant-level definitions at start-up, trace
+\* specifications - empty alphabet - must not pay for argument sets of classes with many attributes)
+PosSets == IF "newv" \notin Alpha THEN [c \in ClassSet |-> {}]
+           ELSE [c \in ClassSet |-> UNION {{p \in [1..k -> AllVals] : PosOK(c, p)} : k \in 0..MaxPos(c)}]
+KwSets == IF "newv" \notin Alpha THEN [c \in ClassSet |-> {}]
+          ELSE [c \in ClassSet |-> UNION {{f \in [S -> AllVals] : KwOK(c, f)} : S \in SUBSET KwNames(c)}]
 PosSetC(c) == PosSets[c]
 KwSetC(c) == KwSets[c]
 
